@@ -1209,7 +1209,7 @@ impl InstrFormat for TimelineFormat06 {
         f.write_i16(llir::fit_field(emitter, "time label", instr.time)?)?;
         f.write_i16(instr.extra_arg.unwrap_or(0) as _)?;
         f.write_u16(instr.opcode)?;
-        f.write_u16(llir::fit_field(emitter, "instruction size", self.instr_size(instr))?)?;
+        f.write_i16(llir::fit_field(emitter, "instruction size", self.instr_size(instr))?)?;
         f.write_all(&instr.args_blob)?;
         Ok(())
     }
